@@ -28,6 +28,7 @@ import WuffsVerif.Proof.RenderNum
 import WuffsVerif.Proof.RenderPairs
 import WuffsVerif.Proof.RenderRetok
 import WuffsVerif.Proof.RenderNumIdem
+import WuffsVerif.Proof.RenderTokWf
 
 namespace WuffsVerif.Props.C12
 open WuffsVerif.FmtToken WuffsVerif.Render WuffsVerif.Gen.C12
@@ -65,13 +66,11 @@ def RenderIdempotent (Accepts : List Tok → Prop) : Prop :=
     fmt out = some out
 
 -- OPEN: theorem render_retokenizes : RenderRetokenizes ParserAccepts
---   PROVED below (`render_retokenizes_partial`): everything but the last conjunct, for every stream with
---   the decidable hypothesis `streamOK` (instead of "is a result of Tokenize that the parser accepts") whose
---   output has fewer than maxLine lines.  Missing: a model of lang/parse (`Accepts toks'`: the output parses;
---   and `Accepts toks → streamOK`, which the harness checks on every accepted source, op `rok`), and
---   `tokenize src = some (toks, comments) → ` the token/comment part of `streamOK` (Tokenize produces
---   well-formed tokens; false as it stands for a last token that is an unterminated string, which
---   `linesOK` excludes).
+--   PROVED below: `render_retokenizes_of_source` — everything but the last conjunct, with
+--   `Accepts toks := linesOK (toks.length + 1) toks` and the hypothesis that the output has fewer than maxLine
+--   lines; and `render_retokenizes_partial` — the same for every stream with the decidable hypothesis
+--   `streamOK`, not only results of Tokenize.  Missing: a model of lang/parse (`Accepts toks'`: the output
+--   parses; and `ParserAccepts toks → linesOK`, which the harness checks on every accepted source, op `rok`).
 -- OPEN: theorem render_idempotent : RenderIdempotent ParserAccepts
 --   Missing: that Render's decisions (indent, hanging, blank lines, varNameLength) depend on the line numbers
 --   only through equality / adjacency, which the re-read stream (`piecesOut`, `piecesC`) preserves, and that
@@ -113,6 +112,30 @@ theorem render_retokenizes_partial (toks : List Tok) (comments : Array Bytes) (o
   exact render_retokenizes_items toks comments out
     (fun t ht => List.all_eq_true.mp h1 t ht) (fun c hc => List.all_eq_true.mp h2 c hc) h4
     (sortedLinesB_sound toks h3) hr hnl
+
+/-- `tokenize_streamOK`: what `Tokenize` returns satisfies `streamOK` as soon as it satisfies the
+line-structure part `linesOK` — every token it produces is well-formed (the one exception, a last
+token that is a string running to the end of the input without its closing quote, is excluded by
+`linesOK`), every comment is `//…` without a newline, and the token lines do not decrease. -/
+theorem tokenize_streamOK (src : Bytes) (toks : List Tok) (comments : Array Bytes)
+    (h : tokenize src = some (toks, comments)) (hl : linesOK (toks.length + 1) toks = true) :
+    (∀ t ∈ toks, wfTok t = true) ∧ wfComments comments ∧ SortedLines toks :=
+  tokenize_wf src toks comments h hl
+
+/-- `render_retokenizes_of_source` (PROVED): `RenderRetokenizes` with `Accepts toks := linesOK … toks`
+— the part of the parser's guarantees that matters (one statement-ending ";" per line end, no
+".." / "+=" split in two) — except for its last conjunct (the output is accepted again), and with
+the line limit as a hypothesis: for every source `src` that `Tokenize` accepts with such a line
+structure and that `Render` accepts, the output tokenizes again, to the same tokens (numbers by
+value) and the same interleaved sequence of tokens and comments. -/
+theorem render_retokenizes_of_source (src out : Bytes) (toks : List Tok) (comments : Array Bytes)
+    (ht : tokenize src = some (toks, comments)) (hl : linesOK (toks.length + 1) toks = true)
+    (hr : render toks comments = some out) (hnl : out.count 10 < maxLine) :
+    ∃ toks' comments', tokenize out = some (toks', comments') ∧
+      toks.length = toks'.length ∧ (∀ p ∈ toks.zip toks', tokEquiv p.1 p.2) ∧
+      ItemsAgree (items toks comments) (items toks' comments') := by
+  obtain ⟨h1, h2, h3⟩ := tokenize_wf src toks comments ht hl
+  exact render_retokenizes_items toks comments out h1 h2 hl h3 hr hnl
 
 /-- the same without the comments (no need for non-decreasing lines) -/
 theorem render_retokenizes_tokens_partial (toks : List Tok) (comments : Array Bytes) (out : Bytes)
